@@ -19,6 +19,9 @@ import vlib
 PROP = "C14"
 WORKERS = 8
 
+# bracket-set scope: body bytes ] ^ - + / % a ; subjects: the bytes around the range bounds
+SETB = [93, 94, 45, 43, 47, 37, 97]
+SETS = [37, 42, 43, 44, 45, 46, 47, 48, 93, 94, 96, 97, 98]     # % * + , - . / 0 ] ^ ` a b
 P16 = [97, 98, 46, 37, 91, 93, 94, 36, 40, 41, 42, 43, 45, 63, 49, 100]   # a b . % [ ] ^ $ ( ) * + - ? 1 d
 
 
@@ -50,7 +53,11 @@ def show(rec):
 
 CLASSES = b"adlsuwxpczADLSUWXPCZ"
 LITS = b"ab1 .-_(){}AZ"
-NOISE = [97, 98, 49, 32, 46, 45, 95, 40, 41, 123, 125, 65, 90, 10, 0, 233, 255, 37, 93, 94]
+NOISE = [97, 98, 49, 32, 46, 45, 95, 40, 41, 123, 125, 65, 90, 10, 0, 233, 255, 37, 93, 94, 42, 43, 44, 47]
+# '-' in every position relative to ranges: range start, range end, after a complete range,
+# leading, trailing, alone, after a %class, with ']' first ({lo}/{hi}: bytes around '-')
+DASH_SETS = ["--{hi}", "{lo}--", "a--", "{lo}--z", "{lo}-{hi}-a", "a-c-e", "-a", "a-", "-", "%w-", "%a-z",
+             "]-a", "]--", "{lo}---{hi}", "--", "---", "%--{hi}", "{lo}-{hi}-"]
 SPECIAL = b"^$()%.[]*+-?"
 
 
@@ -93,6 +100,12 @@ class PatGen:
         """a [set] with ranges, classes, complement and the awkward members"""
         rng = self.rng
         neg = rng.random() < 0.3
+        if rng.random() < 0.2:
+            lo, hi = rng.choice("!*+,"), rng.choice("./0:")
+            body = rng.choice(DASH_SETS).format(lo=lo, hi=hi).encode()
+            pat = b"[" + (b"^" if neg else b"") + body + b"]"
+            near = [ord(lo) - 1, ord(lo), ord(lo) + 1, 44, 45, 46, ord(hi) - 1, ord(hi), ord(hi) + 1, 97, 98, 100, 101, 122, 93]
+            return pat, lambda: rng.choice(near)
         body = b""
         members = []
         if rng.random() < 0.12:
@@ -371,11 +384,12 @@ def report(verd, key, rec, origin, total=None):
 # ---------------------------------------------------------------------------
 # MC + GEN direction
 
-def mc_gen(tag, palpha, salpha, maxp, maxs, stats, verd, cov, timeout):
+def mc_gen(tag, palpha, salpha, maxp, maxs, stats, verd, cov, timeout, module="PatternMC", cfg="PatternMCGen"):
     t0 = time.time()
-    consts = {"PAlpha": tlaset(palpha), "First": tlaset(palpha), "SAlpha": tlaset(salpha),
-              "MaxP": maxp, "MaxS": maxs}
-    r = vlib.run_tlc("PatternMC", "PatternMCGen", consts=consts, workers=WORKERS, timeout=timeout)
+    consts = {"PAlpha": tlaset(palpha), "SAlpha": tlaset(salpha), "MaxP": maxp, "MaxS": maxs}
+    if module == "PatternMC":
+        consts["First"] = tlaset(palpha)
+    r = vlib.run_tlc(module, cfg, consts=consts, workers=WORKERS, timeout=timeout)
     stats["states"] += r.distinct
     stats["transitions"] += r.generated
     nsub = sum(len(salpha) ** k for k in range(maxs + 1))
@@ -493,6 +507,9 @@ def run(tier):
         mc_gen("P16^<=3 x {a,b,1}^<=4", P16, [97, 98, 49], 3, 4, stats, verd, cov, 2400)
     else:
         mc_gen("P16^<=3 x {a,b}^<=2", P16, [97, 98], 3, 2, stats, verd, cov, 600)
+    # every bracket set "[" body "]": '-' in every position relative to ranges
+    mc_gen("sets [body<=%d] x 1 byte" % (5 if thorough else 4), SETB, SETS, 5 if thorough else 4, 1,
+           stats, verd, cov, 2400, module="PatternSets", cfg="PatternSets")
     random_direction(60000 if thorough else 4000, verd, stats, cov)
     stress(verd, cov, 1)
     rc = verd.finish()
